@@ -67,10 +67,15 @@ class DataFrame(Entity, DataSet):
             row_tuple = tuple(row_list)
             new_da.append(row_tuple)
         farr = np.ascontiguousarray(new_da, dtype=dt)
+        units = self.units
         del self._h5group.group['data']
-        self._h5group.group['data'] = farr
-        self._h5group.create_dataset("data", (self.shape[0],), dt)
+        # create the dataset through create_dataset so that it is chunked
+        # and resizable like the original one (rows can still be appended)
+        self._h5group.create_dataset("data", (len(farr),), dt)
         self.write_direct(farr)
+        if units is not None:
+            # keep one unit entry per column
+            self.units = list(units) + [None]
 
     def append_rows(self, data):
         """
